@@ -839,10 +839,10 @@ func rebase(out, c0, c context) context {
 // context while storing any inferences in e.
 func (e *escaper) computeOutCtx(c context, t *template.Template) context {
 	// Propagate context over the body.
-	c1, ok := e.escapeTemplateBody(c, c, t)
+	c1, ok, recursive := e.escapeTemplateBody(c, c, t)
 	if !ok {
 		// Look for a fixed point by assuming c1 as the output context.
-		if c2, ok2 := e.escapeTemplateBody(c, c1, t); ok2 {
+		if c2, ok2, _ := e.escapeTemplateBody(c, c1, t); ok2 {
 			c1, ok = c2, true
 		}
 		// Use c1 as the error context if neither assumption worked.
@@ -853,7 +853,7 @@ func (e *escaper) computeOutCtx(c context, t *template.Template) context {
 			err:   errorf(ErrOutputContext, t.Tree.Root, 0, "cannot compute output context for template %s", t.Name()),
 		}
 	}
-	if ok && c1.state == stateAttr && e.called[t.Name()] {
+	if ok && c1.state == stateAttr && recursive {
 		// The template calls itself: see escapeTemplateBody.
 		c1.attr.ambiguousValue = true
 	}
@@ -869,9 +869,12 @@ func (e *escaper) computeOutCtx(c context, t *template.Template) context {
 
 // escapeTemplateBody escapes the given template, whose body starts in context
 // c, assuming the given output context, and returns the best guess at the
-// output context and whether the assumption was correct.
-func (e *escaper) escapeTemplateBody(c, out context, t *template.Template) (context, bool) {
+// output context, whether the assumption was correct, and whether the template
+// calls itself.
+func (e *escaper) escapeTemplateBody(c, out context, t *template.Template) (context, bool, bool) {
+	recursive := false
 	filter := func(e1 *escaper, c1 context) bool {
+		recursive = e1.called[t.Name()]
 		if c1.state == stateError {
 			// Do not update the input escaper, e.
 			return false
@@ -897,7 +900,8 @@ func (e *escaper) escapeTemplateBody(c, out context, t *template.Template) (cont
 		out.attr.ambiguousValue = true
 	}
 	e.output[t.Name()] = out
-	return e.escapeListConditionally(c, t.Tree.Root, filter)
+	c1, ok := e.escapeListConditionally(c, t.Tree.Root, filter)
+	return c1, ok, recursive
 }
 
 // delimEnds maps each delim to a string of characters that terminate it.
